@@ -197,6 +197,16 @@ def naming_cases(rng):
         rng.shuffle(order)
         want = [[order.index(style.format(i, j)) for j in range(2)] for i in range(3)]
         cases.append((order, 'm', want, f'2-D {style}'))
+    # ragged 2-D names: a row with a single member stays a one-element list (only the outermost level is unwrapped)
+    for style in ('m[{}][{}]', 'm_{}_{}'):
+        dims = [(0, 0), (1, 0), (1, 1), (2, 3)]
+        names = [style.format(i, j) for i, j in dims]
+        order = names + ['q', 'clk']
+        rng.shuffle(order)
+        want = [[order.index(style.format(0, 0))], [order.index(style.format(1, 0)), order.index(style.format(1, 1))], [order.index(style.format(2, 3))]]
+        cases.append((order, 'm', want, f'ragged 2-D {style} with one-member rows'))
+    order = ['ab[1]', 'a[0]', 'ab[0]', 'y']
+    cases.append((order, 'a', [[1], [2, 0]], 'prefix collision with a one-bit bus'))
     # prefix collision: 'a' also matches bus 'ab' -> documented: alphanumerically sorted list of lists
     order = ['a[1]', 'ab[0]', 'a[0]', 'ab[1]', 'x']
     cases.append((order, 'a', [[2, 0], [1, 3]], 'prefix collision a / ab'))
